@@ -128,7 +128,7 @@ def run_kani_units(prop, units, tier, log):
 def decide(prop, tier, only_unit=None, verbose=False):
     t0 = time.time()
     seed = int(os.environ.get('VERIF_SEED', '0') or 0)
-    units = [u for u in load_units() if prop in u['properties'] and (only_unit in (None, u['unit']))]
+    units = [u for u in load_units(all_units=only_unit is not None) if prop in u['properties'] and (only_unit in (None, u['unit']))]
     if not units:
         print(f"no unit serves {prop}")
         return 2
